@@ -37,7 +37,10 @@ ReadVerdict(t, e) ==
       nr == Len(e.rows)
       pidx == IF e.part = <<>> THEN 0 ELSE e.part[1][1] + 1
       staleRow == AggLast(f, lo, pidx, e.part[1])
-      site == IF T = 1 THEN "get_candles(1m)" ELSE "get_candles"
+      \* the store counts windows from its first candle; a timeframe is "off the epoch grid" when that start is not a
+      \* multiple of the timeframe counted from 1970-01-01 (3D / 1W sessions starting on an arbitrary day)
+      offgrid == IF Hdr(t).epoch0 % T # 0 THEN "(timeframe-off-the-epoch-grid)" ELSE ""
+      site == IF T = 1 THEN "get_candles(1m)" ELSE "get_candles" \o offgrid
   IN
   IF n1 = 0 THEN (IF e.ok /\ e.n = 0 THEN "ok" ELSE site \o ":empty-store-read-not-empty")
   ELSE IF n1 - 1 > Len(f) \/ nt = 0 THEN "machinery:1m-rows-missing"
@@ -61,12 +64,17 @@ ReadVerdict(t, e) ==
 
 \* the stored one-minute candles equal the input candles except for the jump normalisation
 FinalVerdict(t, e) ==
-  LET sy == Hdr(t).syms[e.s]  f == sy.fin  inp == sy.inp
-      bad == {k \in 1..Len(f) : ~(f[k] = inp[k] \/ (k > 1 /\ f[k] = FixJump(inp[k - 1][3], inp[k])))}
+  LET sy == Hdr(t).syms[e.s]  f == sy.fin  inp == sy.inp  W == Hdr(t).W
+      Fixed(k) == FixJump(inp[k - 1][3], inp[k])
+      \* warm-up rows and the first trading minute are stored as given (or normalised); every later trading minute
+      \* IS normalised when its open gaps (both simulators; inside a fast-mode chunk too)
+      raw == {k \in (W + 2)..Len(f) : f[k] = inp[k] /\ f[k] # Fixed(k)}
+      bad == {k \in 1..Len(f) : ~(f[k] = inp[k] \/ (k > 1 /\ f[k] = Fixed(k)))}
   IN IF Len(f) > Len(inp) THEN "1m:more-stored-rows-than-input"
      ELSE IF Hdr(t).exc = "none" /\ Len(f) # Len(inp) THEN "1m:stored-count-differs-from-input"
      ELSE IF \E k \in 1..Len(f) : f[k][1] # k - 1 THEN "1m:timestamps-not-one-minute-apart"
      ELSE IF bad # {} THEN "1m:stored-row-is-neither-the-input-nor-its-jump-normalisation"
+     ELSE IF raw # {} THEN "1m:gapping-open-not-normalised:" \o Hdr(t).mode
      ELSE "ok"
 
 ExcVerdict(t, e) ==
